@@ -108,7 +108,7 @@ type c17Model struct {
 	rsvDelByCtl bool // the last deletion of the reservation was a Delete call of the controller
 	pod         int
 	podGen      int
-	newPod      int    // 0 none, 1 bound pod exists and is not ready, 2 ready
+	newPod      int    // 0 none, 1 bound pod exists and is not ready, 2 ready, 3 the bound pod was deleted
 	newPodName  string // which pod the reservation was bound to (for the readiness event)
 	afterTTL    bool
 	faults      int
@@ -709,12 +709,13 @@ func (s *c17Sys) Apply(op int, check bool) (bool, []mc.Violation) {
 			reservationutil.SetReservationSucceeded(r)
 		})
 	case c17OpNewPodReady:
-		if m.newPod != 1 {
-			return false, nil
+		if m.newPod != 1 || (m.newPodName == c17PodName && m.pod == c17POrig && m.podPending) {
+			return false, nil // a pod that is not yet scheduled cannot become ready
 		}
 		if p := s.getPod(m.newPodName); p != nil {
-			p.Status.Conditions = []corev1.PodCondition{{Type: corev1.PodReady, Status: corev1.ConditionTrue}}
-			s.must(s.cl.Update(context.TODO(), p))
+			// pods have a status subresource in the fake client as on a real API server: a plain Update keeps the old status
+			p.Status.Conditions = append(p.Status.Conditions, corev1.PodCondition{Type: corev1.PodReady, Status: corev1.ConditionTrue})
+			s.must(s.cl.Status().Update(context.TODO(), p))
 		}
 		m.newPod = 2
 	case c17OpTargetScheduled:
@@ -723,8 +724,13 @@ func (s *c17Sys) Apply(op int, check bool) (bool, []mc.Violation) {
 		}
 		p := s.getPod(c17PodName)
 		p.Spec.NodeName = c17NodeB
-		p.Status.Conditions = []corev1.PodCondition{{Type: corev1.PodScheduled, Status: corev1.ConditionTrue}}
-		s.must(s.cl.Update(context.TODO(), p))
+		s.must(s.cl.Update(context.TODO(), p)) // the binding
+		for i := range p.Status.Conditions {
+			if p.Status.Conditions[i].Type == corev1.PodScheduled {
+				p.Status.Conditions[i] = corev1.PodCondition{Type: corev1.PodScheduled, Status: corev1.ConditionTrue}
+			}
+		}
+		s.must(s.cl.Status().Update(context.TODO(), p))
 		m.podPending, m.podWasPending = false, true
 	case c17OpPodDeleted:
 		if m.pod == c17PDeleted {
@@ -732,6 +738,9 @@ func (s *c17Sys) Apply(op int, check bool) (bool, []mc.Violation) {
 		}
 		s.must(s.cl.Delete(context.TODO(), &corev1.Pod{ObjectMeta: metav1.ObjectMeta{Namespace: c17NS, Name: c17PodName}}))
 		m.pod = c17PDeleted
+		if m.newPod != 0 && m.newPodName == c17PodName {
+			m.newPod = 3 // the pod that consumed the reservation was this very pod: it is gone for good (a later same-name pod is another pod)
+		}
 	case c17OpPodReplacedA, c17OpPodReplacedB:
 		if m.pod != c17PDeleted || m.podGen > 0 {
 			return false, nil
@@ -911,6 +920,22 @@ func (s *c17Sys) Invariants() []mc.Violation {
 	if sn.pod != nil && sn.pod.Spec.NodeName != m.podNode() {
 		bad = append(bad, fmt.Sprintf("pod node: model %q store %q", m.podNode(), sn.pod.Spec.NodeName))
 	}
+	if m.newPod == 1 || m.newPod == 2 {
+		if p := s.getPod(m.newPodName); p != nil && c17Ready(p) != (m.newPod == 2) {
+			bad = append(bad, fmt.Sprintf("bound pod %s readiness: model %v store %v", m.newPodName, m.newPod == 2, c17Ready(p)))
+		}
+	}
+	if s.cfg.pending && sn.pod != nil && m.pod == c17POrig {
+		sched := false
+		for _, c := range sn.pod.Status.Conditions {
+			if c.Type == corev1.PodScheduled && c.Status == corev1.ConditionTrue {
+				sched = true
+			}
+		}
+		if sched == m.podPending {
+			bad = append(bad, fmt.Sprintf("pending target pod: model pending=%v, store PodScheduled=%v", m.podPending, sched))
+		}
+	}
 	if len(bad) > 0 {
 		return []mc.Violation{{Key: "C17|harness|model-store-mismatch", What: strings.Join(bad, "; ")}}
 	}
@@ -1011,7 +1036,16 @@ var c17Assumptions = []string{
 	"the job is user-created (no job-created-by annotation), not paused, TTL 5m, no object limiters (as in newTestReconciler)",
 }
 
-func c17Run(t *testing.T, env *mc.Env, cfg *c17Cfg) {
+// c17Run explores one configuration. cumShare is the fraction of the unit's wall-clock budget that may be used up when
+// this part ends (parts of one unit run one after the other in one process; without the split an early part could
+// starve the later ones on a loaded machine; time a part does not use is carried over to the next).
+func c17Run(t *testing.T, env *mc.Env, cfg *c17Cfg, cumShare float64) {
+	penv := mc.LoadEnv()
+	penv.Budget = time.Duration(float64(env.Budget)*cumShare) - env.Elapsed()
+	if penv.Budget < 0 {
+		penv.Budget = 0
+	}
+	t0 := time.Now()
 	if cfg.maxK == 0 {
 		cfg.maxK = 5
 	}
@@ -1035,7 +1069,7 @@ func c17Run(t *testing.T, env *mc.Env, cfg *c17Cfg) {
 		res.Rule += fmt.Sprintf("; every history starts with the fixed prefix %v (the fault-free road up to the issued eviction)", cfg.prefix)
 	}
 	res.Bounds = map[string]any{"prefix": cfg.prefix, "max_faults_per_history": cfg.maxFaults, "fault_positions_per_reconcile": cfg.maxK, "pod_replacements": 1, "nodes": 2}
-	b := &mc.BFS{Res: res, Env: env, New: func() mc.System { return c17NewSys(cfg, res) }, NumOps: len(cfg.ops),
+	b := &mc.BFS{Res: res, Env: penv, New: func() mc.System { return c17NewSys(cfg, res) }, NumOps: len(cfg.ops),
 		OpName: func(i int) string { return cfg.ops[i].name }, MaxDepth: cfg.depth,
 		// no Go map is iterated on the reconcile path (object limiter maps are nil as in newTestReconciler), so one
 		// execution per transition suffices
@@ -1064,6 +1098,7 @@ func c17Run(t *testing.T, env *mc.Env, cfg *c17Cfg) {
 			}
 		}
 	}
+	res.WallS = time.Since(t0).Seconds()
 	env.Emit(res)
 	t.Logf("C17 %s: states=%d transitions=%d depth=%d exhaustive=%v violations=%d %s", cfg.name, res.States, res.Transitions, res.MaxDepth, res.Exhaustive, res.NumViolations(), res.Capped)
 }
@@ -1071,23 +1106,27 @@ func c17Run(t *testing.T, env *mc.Env, cfg *c17Cfg) {
 func TestVerifC17RF(t *testing.T) {
 	env := mc.LoadEnv()
 	c17Run(t, env, &c17Cfg{name: "rf-hist", kind: "rf", mode: sev1alpha1.PodMigrationJobModeReservationFirst,
-		maxFaults: env.Pick(1, 2), depth: env.Pick(8, 10), replaceA: env.Thorough(), legacy: env.Thorough()})
+		maxFaults: env.Pick(1, 2), depth: env.Pick(8, 10), replaceA: env.Thorough(), legacy: env.Thorough()}, 1.0)
 }
 
 func TestVerifC17Aux(t *testing.T) {
 	env := mc.LoadEnv()
+	share := []float64{0.6, 1.0} // cumulative budget shares of the parts
+	if env.Thorough() {
+		share = []float64{0.3, 0.4, 0.75, 1.0}
+	}
 	// second half of the life cycle: everything that can follow an issued eviction (pod gone / replaced, reservation
 	// consumed / expired / deleted, TTL, restart, write failures), deep enough to continue after Succeeded
 	c17Run(t, env, &c17Cfg{name: "rf-after-eviction-hist", kind: "rf", mode: sev1alpha1.PodMigrationJobModeReservationFirst,
 		prefix:    []string{"reconcile", "rsv-scheduled-other-node", "reconcile"},
-		maxFaults: env.Pick(1, 2), depth: env.Pick(6, 8), replaceA: env.Thorough(), legacy: env.Thorough()})
+		maxFaults: env.Pick(1, 2), depth: env.Pick(6, 8), replaceA: env.Thorough()}, share[0])
 	c17Run(t, env, &c17Cfg{name: "direct-hist", kind: "direct", mode: sev1alpha1.PodMigrationJobModeEvictionDirectly,
-		maxFaults: env.Pick(1, 2), depth: env.Pick(6, 9), replaceA: env.Thorough()})
+		maxFaults: env.Pick(1, 2), depth: env.Pick(6, 9), replaceA: env.Thorough()}, share[1])
 	if env.Thorough() {
 		c17Run(t, env, &c17Cfg{name: "rf-preset-ref-hist", kind: "rf", maxK: 7, mode: sev1alpha1.PodMigrationJobModeReservationFirst, presetRef: true,
-			maxFaults: 1, depth: 8, legacy: true})
+			maxFaults: 1, depth: 8, legacy: true}, share[2])
 		// migration of a Pending pod: the reservation is owned by the pod itself, nothing is to be evicted
 		c17Run(t, env, &c17Cfg{name: "rf-pending-pod-hist", kind: "rf", mode: sev1alpha1.PodMigrationJobModeReservationFirst, pending: true,
-			maxFaults: 1, depth: 7})
+			maxFaults: 1, depth: 7}, share[3])
 	}
 }
